@@ -20,6 +20,16 @@ TOK_ASSUME = [
 
 TOK_UNITS = ["lemmas", "ctor", "process", "post_process", "iter_tokens", "tokenize"]
 
+REG_ASSUME = [
+    "float arithmetic is read as real arithmetic ('real' float mode): a*sr, t/1000, len/(sr*sw*ch) are exact reals; "
+    "int()/round() are exact truncation / round-half-even on that real",
+    "bytes and lists are modelled as values (length, index -> element); @dataclass(frozen=True) semantics assumed",
+    "regions are well-formed by construction (len(data) == nsamples*sw*ch with sr, sw, ch >= 1), which is what the "
+    "constructor contract (unit post_init) establishes",
+    "exact polynomial rewriting of integer terms (pyvc/nl.py: distribution over if-then-else, (x*B)//B == x) and "
+    "instantiated monotonicity-of-multiplication lemmas are arithmetic identities, not checked by a second tool",
+]
+
 REGISTRY = {
     "C01": {"module": "props.tokenizer", "units": ["lemmas", "process", "post_process", "iter_tokens"],
             "witness": "tok", "assumptions": TOK_ASSUME},
@@ -34,6 +44,17 @@ REGISTRY = {
                 "for the delivered-token rule only (DESIGN 5, C04)"]},
     "C08": {"module": "props.tokenizer", "units": ["lemmas", "process", "post_process", "iter_tokens", "tokenize"],
             "witness": "tok", "assumptions": TOK_ASSUME},
+    "C16": {"module": "props.regions", "units": ["post_init", "getitem", "len", "seconds", "millis"],
+            "witness": "region", "assumptions": REG_ASSUME},
+    "C17": {"module": "props.regions", "units": ["post_init", "getitem", "add", "mul", "eq", "make_silence", "truediv",
+                                                 "concat_lemma", "frozen", "check_iter_others", "join"],
+            "witness": "region", "assumptions": REG_ASSUME + [
+                "join(): others is an abstract sequence of K regions (K symbolic); bytes.join is the library operation "
+                "itself (spec and code use the same one), modelled as: consumes its iterable completely, propagates its "
+                "exception, result length is a whole number of samples when separator and parts are (assumed lemma); "
+                "sum() is 0 + r1 (-> __radd__) followed by __add__",
+                "division: 'sum of the pieces equals the original' follows from the proved tiling "
+                "(pieces are self[s(j):s(j+1)], s(0)=0, s(count)=len) by the proved concat lemma and induction on the piece count"]},
     "C20": {"module": "props.tokenizer", "units": ["lemmas", "process", "post_process", "iter_tokens"],
             "witness": "tok", "assumptions": TOK_ASSUME},
 }
